@@ -27,7 +27,12 @@ def wrap(kind, v):
     if kind == "unsigned":
         return u32(v)
     if kind == "float":
-        return f32(v)
+        r = f32(v)
+        if r != r or (r == 0.0 and math.copysign(1.0, r) < 0):
+            # NaN and -0.0 as relation keys: souffle stores floats by bit pattern while `=` compares them numerically;
+            # the documentation leaves this open, so such cases are outside the domain the checks quantify over
+            raise Undefined("NaN / -0.0 produced")
+        return r
     return v
 
 
@@ -309,7 +314,10 @@ class Evaluator:
         if isinstance(t, Functor):
             args = [self.ev(a, env) for a in t.args]
             try:
-                return apply_functor(t.op, t.kind, args)
+                r = apply_functor(t.op, t.kind, args)
+                if isinstance(r, float) and (r != r or (r == 0.0 and math.copysign(1.0, r) < 0)):
+                    raise Undefined("NaN / -0.0 produced")      # see wrap()
+                return r
             except Undefined:
                 self.undefined = True
                 raise
